@@ -12,6 +12,7 @@ Record Inv (s : coll) : Prop := {
   inv_sort : SortOK s;          (* C16: sorted indexes hold exactly the rows with a value *)
   inv_count : Quiescent s;      (* C11: Count = number of occupied offsets *)
   inv_targets : ∀ e, e ∈ comps s → is_Some (cols s !! xtarget e);   (* computed columns hang off existing columns *)
+  inv_cast : CastFixed s;       (* C01/C07: stored values are fixed points of the column's cast *)
 }.
 
 Lemma wf_row_of_bool t : forallb is_marker (trow t) = true → wf_row t.
@@ -58,7 +59,7 @@ Qed.
 (* one transaction *)
 Theorem run_txn_inv s body cp : Inv s → txn_wf s body = true → Inv (fst (run_txn s body cp)).
 Proof.
-  intros [L I S Q T] W. unfold txn_wf, run_txn in *.
+  intros [L I S Q T K] W. unfold txn_wf, run_txn in *.
   destruct (do_stmts s txn0 body) as [[s1 t1] rs] eqn:E.
   apply andb_prop in W as [W Ww]. apply andb_prop in W as [Wf Wr].
   pose proof (fresh_of_bool rs Wf) as Hf.
@@ -75,15 +76,16 @@ Proof.
     + apply commit_sort_ok; [by apply wf_row_of_bool|by eapply sort_ok_store].
     + apply commit_quiescent. exact C.
     + apply commit_targets. intros e He. destruct St as (Co & Cm & _). rewrite Cm in He. rewrite Co. by apply T.
+    + apply commit_cast_fixed. intros c col Hc. destruct St as (Co & _). rewrite Co in Hc. exact (K c col Hc).
   - (* rollback: the collection is the one before *)
     pose proof (rollback_no_trace s body Q) as R. unfold run_txn in R. rewrite E in R. cbn in R.
     rewrite (R Hf). by constructor.
 Qed.
 
 (* schema changes *)
-Lemma create_column_inv s id col k : cells col = ∅ → Inv s → Inv (create_column s id col k).
+Lemma create_column_inv s id col k : cells col = ∅ → cast_idem col → Inv s → Inv (create_column s id col k).
 Proof.
-  intros He [L I S Q T]. unfold create_column. destruct (cols s !! id) eqn:E; [by constructor|].
+  intros He Hi [L I S Q T K]. unfold create_column. destruct (cols s !! id) eqn:E; [by constructor|].
   constructor; cbn [fill count cols comps].
   - intros c c' i Hc Hs. cbn [cols fill] in *. apply lookup_insert_Some in Hc as [[<- <-]|[_ Hc]]; [rewrite He, lookup_empty in Hs; by destruct Hs|by eapply L].
   - intros e rule bits c' He' Hx Hc. cbn [cols comps] in *. apply lookup_insert_Some in Hc as [[Ht <-]|[_ Hc]]; [|by eapply I].
@@ -94,6 +96,8 @@ Proof.
   - intros e He'. cbn [cols comps] in *. destruct (T e He') as [c0 Hc0]. destruct (decide (id = xtarget e)) as [->|NE].
     + rewrite lookup_insert. by eexists.
     + rewrite lookup_insert_ne by done. by exists c0.
+  - intros c c' Hc. cbn [cols] in Hc. apply lookup_insert_Some in Hc as [[_ <-]|[_ Hc]]; [|exact (K c c' Hc)].
+    split; [exact Hi|]. intros i v Hv. by rewrite He, lookup_empty in Hv.
 Qed.
 
 Lemma create_trigger_idx_ok s id tg log : IdxOK s → IdxOK (create_computed s id tg (XTrigger log)).
@@ -123,18 +127,19 @@ Qed.
 
 Theorem create_computed_inv s id tg x : Inv s → Inv (create_computed s id tg x).
 Proof.
-  intros [L I S Q T]. constructor.
+  intros [L I S Q T K]. constructor.
   - unfold create_computed. destruct (cols s !! tg); exact L.
   - destruct x; [by apply create_index_ok|by apply create_trigger_idx_ok|by apply create_sorted_idx_ok].
   - destruct x; [apply create_other_sort_ok; [done|exact S]|apply create_other_sort_ok; [done|exact S]|by apply create_sorted_ok].
   - unfold create_computed. destruct (cols s !! tg); exact Q.
   - unfold create_computed. destruct (cols s !! tg) eqn:Ht; [|exact T]. cbn [comps cols].
     intros e [He|He]%elem_of_app; [by apply T|]. apply elem_of_list_singleton in He. subst e. cbn. by eexists.
+  - unfold create_computed. destruct (cols s !! tg); exact K.
 Qed.
 
 Theorem drop_computed_inv s id : Inv s → Inv (drop_computed s id).
 Proof.
-  intros [L I S Q T]. constructor; unfold drop_computed; cbn [fill count cols comps]; try done.
+  intros [L I S Q T K]. constructor; unfold drop_computed; cbn [fill count cols comps]; try done.
   - intros e r bits col [_ He]%elem_of_list_filter. by apply I.
   - intros e tree col [_ He]%elem_of_list_filter. by apply S.
   - intros e [_ He]%elem_of_list_filter. by apply T.
@@ -157,7 +162,7 @@ Definition hrun (s : coll) (h : hstep) : coll :=
 
 Definition hstep_ok (s : coll) (h : hstep) : Prop :=
   match h with
-  | HCol _ c _ => cells c = ∅
+  | HCol _ c _ => cells c = ∅ ∧ cast_idem c
   | HTxn body _ => txn_wf s body = true
   | _ => True
   end.
@@ -173,6 +178,7 @@ Proof.
   - intros e tree col He. by apply elem_of_nil in He.
   - done.
   - intros e He. by apply elem_of_nil in He.
+  - intros c col Hc. cbn in Hc. by rewrite lookup_empty in Hc.
 Qed.
 
 (* every state of every admissible history satisfies all the invariants *)
@@ -180,7 +186,7 @@ Theorem history_inv h : ∀ s, Inv s → history_ok s h → Inv (foldl hrun s h)
 Proof.
   induction h as [|x r IH]; intros s I H; [exact I|]. destruct H as [Hx Hr]. cbn [foldl]. apply IH; [|exact Hr].
   destruct x; cbn [hrun hstep_ok] in *.
-  - by apply create_column_inv.
+  - destruct Hx. by apply create_column_inv.
   - by apply create_computed_inv.
   - by apply drop_computed_inv.
   - by apply run_txn_inv.
